@@ -617,17 +617,59 @@ func c12DirectedSeeds() [][]byte {
 	nm := func(n string, v []byte) []byte { return c12Cat([]byte{0x08}, []byte(n), v) }
 	buf := func(size []byte, data ...byte) []byte { return c12Pkg([]byte{0x11}, 1, size, data) }
 	pkg := func(n byte, els ...[]byte) []byte { return c12Pkg([]byte{0x12}, 1, []byte{n}, c12Cat(els...)) }
-	meth := func(n string, body ...[]byte) []byte { return c12Pkg([]byte{0x14}, 1, []byte(n), []byte{0}, c12Cat(body...)) }
+	meth := func(n string, body ...[]byte) []byte {
+		return c12Pkg([]byte{0x14}, 1, []byte(n), []byte{0}, c12Cat(body...))
+	}
 	one, tail := []byte{0x01}, nm("A001", []byte{0x01})
 	inner := buf([]byte{0x0a, 2}, 0, 1)
-	return [][]byte{
+	// Every construct that stores a byte list, string, name or buffer in the tree, placed so that it
+	// ends with the LAST byte of the table: the plans over its length / size / count operands then
+	// cover "declares a few bytes more than are there" exactly where more means behind the table.
+	opr := func(n string) []byte {
+		return c12Cat([]byte{0x5b, 0x80}, []byte(n), []byte{0x09, 0x00, 0x0b, 0x00, 0x01})
+	}
+	field := func(n string, els ...[]byte) []byte {
+		return c12Pkg([]byte{0x5b, 0x81}, 1, []byte(n), []byte{0x05}, c12Cat(els...))
+	}
+	conn := func(b []byte) []byte { return c12Cat([]byte{0x02}, b) }
+	unit := func(n string) []byte { return c12Cat([]byte(n), []byte{0x08}) }
+	str := func(v string) []byte { return c12Cat([]byte{0x0d}, []byte(v), []byte{0}) }
+	atEnd := [][]byte{
+		// Connection(Buffer) as the last field element, size operand as byte / word / dword, 1- and 2-byte PkgLength
+		c12Cat(opr("TOP1"), field("TOP1", unit("FLD0"), conn(buf([]byte{0x0a, 4}, 1, 2, 3, 4)))),
+		c12Cat(opr("TOP1"), field("TOP1", conn(buf([]byte{0x0b, 3, 0}, 1, 2, 3)))),
+		c12Cat(opr("TOP1"), field("TOP1", conn(buf([]byte{0x0c, 2, 0, 0, 0}, 1, 2)))),
+		c12Cat(opr("TOP1"), field("TOP1", conn(c12Pkg([]byte{0x11}, 2, []byte{0x0a, 5}, []byte{1, 2, 3, 4, 5})))),
+		c12Cat(opr("TOP1"), c12Pkg([]byte{0x5b, 0x86}, 1, []byte("TOP1"), []byte("IDX0"), []byte{0x05}, conn(buf([]byte{0x0a, 2}, 8, 9)))),                  // IndexField
+		c12Cat(opr("TOP1"), c12Pkg([]byte{0x5b, 0x87}, 1, []byte("TOP1"), []byte("BNK0"), []byte{0x0a, 0}, []byte{0x05}, conn(buf([]byte{0x0a, 2}, 8, 9)))), // BankField
+		// the other field elements last: Connection(name), named unit, reserved, access, extended access (with its access length)
+		c12Cat(opr("TOP1"), field("TOP1", unit("FLD0"), conn([]byte("SDB0")))),
+		c12Cat(opr("TOP1"), field("TOP1", conn([]byte("SDB0")), unit("FLD1"))),
+		c12Cat(opr("TOP1"), field("TOP1", unit("FLD0"), []byte{0x00, 0x10})),
+		c12Cat(opr("TOP1"), field("TOP1", unit("FLD0"), []byte{0x01, 0x05, 0x0a})),
+		c12Cat(opr("TOP1"), field("TOP1", unit("FLD0"), []byte{0x03, 0x05, 0x0b, 0x04})),
+		// Buffer / String / Package / name as the last term of the table
+		nm("BUF3", buf([]byte{0x0a, 3}, 1, 2, 3)),
+		nm("BUF4", buf([]byte{0x0b, 2, 0}, 1, 2)),
+		nm("BUF5", c12Pkg([]byte{0x11}, 2, []byte{0x0a, 4}, []byte{1, 2, 3, 4})),
+		nm("STR0", str("ABC")),
+		nm("PKG1", pkg(2, str("AB"), buf([]byte{0x0a, 2}, 1, 2))),
+		nm("PKG2", pkg(1, []byte("A001"))),
+		c12Cat(tail, []byte{0x06}, []byte("A001"), []byte("A002")),                                                              // Alias: a NameString ends the table
+		c12Cat(tail, []byte{0x08, 0x2e}, []byte("A001"), []byte("A003"), one),                                                   // dual name path
+		meth("M002", []byte{0xa4}, buf([]byte{0x0a, 2}, 1, 2)),                                                                  // Return(Buffer) ends the table
+		meth("M003", []byte{0x70}, str("XY"), []byte{0x60}, []byte{0xa4}, str("Z")),                                             // Return("Z")
+		c12Cat(opr("TOP1"), []byte{0x5b, 0x88}, []byte("REG0"), str("FOOF"), str("BAR"), str("BAZ")),                            // DataTableRegion strings
+		c12Cat([]byte{0x5b, 0x82}, c12PkgLen(4+len(nm("_HID", str("PNP0A03"))), 1), []byte("DEV0"), nm("_HID", str("PNP0A03"))), // string last inside a Device
+	}
+	return append(atEnd, [][]byte{
 		c12Cat(nm("BUF0", buf(inner, 1)), tail),
 		c12Cat(nm("BUF1", buf(pkg(1, buf([]byte{0x0a, 1}, 7)), 2, 3)), tail),
 		c12Cat(nm("PKG0", c12Pkg([]byte{0x13}, 1, inner, one)), tail),
 		c12Cat(meth("M000", c12Pkg([]byte{0xa0}, 1, buf([]byte{0x0a, 1}, 1), []byte{0xa4, 0x01})), tail),
 		c12Cat(meth("M001", c12Pkg([]byte{0xa2}, 1, pkg(1, one), []byte{0xa5})), tail),
 		c12Cat(nm("BUF2", buf(c12Cat([]byte{0x72}, buf([]byte{0x0a, 1}, 1), one, []byte{0x60}), 9)), tail),
-	}
+	}...)
 }
 
 // ---------------------------------------------------------------- leg T: seeded random driver
@@ -670,8 +712,14 @@ func c12Mutate(rng *rand.Rand, b []byte, donor []byte) ([]byte, string) {
 		return out, fmt.Sprintf("FlipBit(%d,%d)", i, bit)
 	case 2:
 		i, v := rng.Intn(len(out)), byte(rng.Intn(256))
-		if rng.Intn(2) == 0 {
+		switch rng.Intn(3) {
+		case 0:
 			v = c12Vocabulary[rng.Intn(len(c12Vocabulary))][0]
+		case 1: // a length / size / count that is off by a few
+			v = out[i] + byte(1+rng.Intn(3))
+			if rng.Intn(2) == 0 {
+				v = out[i] - byte(1+rng.Intn(3))
+			}
 		}
 		out[i] = v
 		return out, fmt.Sprintf("SetByte(%d,%d)", i, v)
